@@ -61,6 +61,10 @@ type ReadCfg struct {
 	// CopyValue: the Reader value is copied between top-level units and the
 	// copy used from then on (AppReader).
 	CopyValue bool
+	// InterErr: the OnIntermediate handler (mode 1, reads everything) returns
+	// an error of its own after each control frame; the application repeats
+	// the call (Read, Discard) that handed it on.
+	InterErr bool
 	// ZeroBuf: the application now and then calls Read with an empty buffer.
 	ZeroBuf bool
 	// CopyDrain: units that are read to their end are drained with io.Copy
@@ -199,7 +203,18 @@ type writerFunc func([]byte) (int, error)
 
 func (f writerFunc) Write(b []byte) (int, error) { return f(b) }
 
-func readUnit(r *eng.Run, p *Pipe, rd io.Reader, discard func() error, rec *Rec, o *Outcome, allowDiscard bool) bool {
+// errInterSeen is the application's own "a control frame was handled" error.
+var errInterSeen = errors.New("sim: the application's handler has seen a control frame")
+
+func readUnit(r *eng.Run, p *Pipe, rd io.Reader, discard0 func() error, rec *Rec, o *Outcome, allowDiscard bool) bool {
+	discard := func() error {
+		for {
+			err := discard0()
+			if !errors.Is(err, errInterSeen) {
+				return err
+			}
+		}
+	}
 	act := 0
 	if allowDiscard {
 		act = r.T.Int(sim.LAct, 6) // 0..3 read all, 4 partial then discard, 5 discard now
@@ -261,6 +276,9 @@ func readUnit(r *eng.Run, p *Pipe, rd io.Reader, discard func() error, rec *Rec,
 		rec.Data = append(rec.Data, buf[:n]...)
 		if err == io.EOF {
 			return true
+		}
+		if errors.Is(err, errInterSeen) {
+			continue
 		}
 		if err != nil && o.Retry && !o.retried && errors.Is(err, ErrInjectedNet) {
 			// A temporary transport error (missed read deadline): the
@@ -362,6 +380,13 @@ func appReader(r *eng.Run, p *Pipe, cfg ReadCfg, o *Outcome) {
 			}
 			rec.Failed = err != nil // the handler's reader reported the failure
 			o.Recs = append(o.Recs, rec)
+			if err == nil && cfg.InterErr && mode == 1 {
+				// The handler has taken the whole frame and tells its
+				// application so with an error of its own ("pong seen"); the
+				// application carries on with the call that returned it.
+				r.Probe("intermediate_handler_returns_its_own_error")
+				return errInterSeen
+			}
 			return err
 		}
 	}
